@@ -1,686 +1,8 @@
-import SimuVerif.Lemmas.Integrator
-import Mathlib.Tactic.Ring
-import Mathlib.Tactic.FieldSimp
-import Mathlib.Tactic.NormNum
+import SimuVerif.Properties.C03Base
+import SimuVerif.Properties.C03Coupling
 /-
-  C03 — a time step advances every node by the documented integration law.
-
-  The model (`Simu.Integ.step`, Model/Integrator.lean) is the sequential reading of
-  `time_integration_scheme::update_nodes_positions`; all its arithmetic is the text generated from the C++
-  source on every run (Gen/Integrator.lean), so the theorems below are statements about what the C++ says now,
-  read in exact arithmetic over an arbitrary ordered field, for each of the six compile-time configurations
-  (`cm : CM`, `dm : DM`), every population `topo`, every dynamic state `s`, every `dt`, `damping`, density and
-  volume (no sign condition is needed for the algebraic laws), and every number `n` of consecutive steps.
+  C03 — property theorems (namespace `Simu.C03`):
+  * `Properties/C03Base.lean`     the position update of all six configurations (law per node, pairs, static cells, time);
+  * `Properties/C03Coupling.lean` the tail of the contact phase that establishes the hypothesis `Mutual` of the pair theorems
+                                   (symmetrisation + midpoint loops of `resolve_all_contacts`) and the bridge to `pairTopo_of_mutual`.
 -/
-set_option linter.unusedSectionVars false
-set_option linter.unusedVariables false
-namespace Simu.C03
-open Simu Simu.Integ
-
-variable {R : Type} [Field R] [LinearOrder R] [IsStrictOrderedRing R]
-
-/-! ## the documented law -/
-
-/-- semi-implicit Euler: `momentum += (force - damping*momentum/mass)*dt`, then `position += momentum*dt/mass`,
-    force accumulator back to zero -/
-def lawSemi (dt damping m : R) (x : Dyn R) : Dyn R :=
-  let p' : V3 R := x.mom + (x.force - (x.mom * damping) / m) * dt
-  ⟨x.pos + (p' * dt) / m, p', ⟨0, 0, 0⟩⟩
-
-/-- overdamped forward Euler: `position += force*dt/damping`, force accumulator back to zero -/
-def lawOver (dt damping : R) (x : Dyn R) : Dyn R :=
-  ⟨x.pos + (x.force * dt) / damping, x.mom, ⟨0, 0, 0⟩⟩
-
-/-- componentwise reading of the vec3 operators -/
-local macro "v3simp" : tactic =>
-  `(tactic| simp only [V3.add_x, V3.add_y, V3.add_z, V3.sub_x, V3.sub_y, V3.sub_z, V3.smul_x, V3.smul_y, V3.smul_z,
-      V3.sdiv_x, V3.sdiv_y, V3.sdiv_z, V3.neg_x, V3.neg_y, V3.neg_z])
-
-theorem dyn_ext {x y : Dyn R} (h1 : x.pos = y.pos) (h2 : x.mom = y.mom) (h3 : x.force = y.force) : x = y := by
-  cases x; cases y; simp_all
-
-/-! ## time -/
-
-/-- one position update advances the simulated time by exactly one time step -/
-theorem time_advances (cm : CM) (dm : DM) (topo : List (CellT R)) (dt damping : R) (s : State R) :
-    (step cm dm topo dt damping s).time = s.time + dt := rfl
-
-/-- `n` consecutive updates advance it by `n * dt` -/
-theorem time_n (cm : CM) (dm : DM) (topo : List (CellT R)) (dt damping : R) (n : Nat) :
-    ∀ s : State R, (stepN cm dm topo dt damping n s).time = s.time + n * dt := by
-  induction n with
-  | zero => intro s; simp [stepN]
-  | succ n ih =>
-    intro s
-    simp only [stepN]
-    rw [ih, time_advances]
-    push_cast; ring
-
-/-! ## the per-node mass -/
-
-theorem filter_count (l : List NodeT) :
-    (l.filter (fun n => !n.used)).length + (l.filter (fun n => n.used)).length = l.length := by
-  induction l with
-  | nil => rfl
-  | cons a t ih =>
-    cases h : a.used <;> simp [List.filter_cons, h] <;> omega
-
-/-- the node mass used by the update is the cell mass (density × volume) divided by the number of live slots -/
-theorem node_mass_law (c : CellT R) :
-    c.mass = c.density * c.volume / (((c.nodes.filter (fun n => n.used)).length : Nat) : R) := by
-  have h := filter_count c.nodes
-  have : c.nodes.length - c.nbFree = (c.nodes.filter (fun n => n.used)).length := by
-    unfold CellT.nbFree; omega
-  simp only [CellT.mass, Gen.nodeMass, Gen.cellMass, Gen.nbNodes, lit_eq, this]
-
-/-! ## slots that are not written: unused slots, static cells -/
-
-/-- a slot that no visit writes keeps its whole dynamic state -/
-theorem untouched (cm : CM) (dm : DM) (topo : List (CellT R)) (dt damping : R) (s : State R) (q : Slot)
-    (h : ∀ k, q ∉ (plan cm topo k).wset k) :
-    getD (step cm dm topo dt damping s).dyn q = getD s.dyn q :=
-  fold_frame cm dm topo dt damping q _ _ (fun k _ => h k)
-
-/-- no coupling entry of the population names the slot `q` -/
-def NoEntry (topo : List (CellT R)) (q : Slot) : Prop :=
-  ∀ (k : Slot) (c : CellT R) (nt : NodeT), topo[k.1]? = some c → c.nodes[k.2]? = some nt → q ∉ nt.coup
-
-/-- an unused slot which no coupling names is left untouched (position, momentum and force) -/
-theorem unused_untouched (cm : CM) (dm : DM) (topo : List (CellT R)) (dt damping : R) (s : State R)
-    (q : Slot) (c : CellT R) (nt : NodeT) (hc : topo[q.1]? = some c) (hn : c.nodes[q.2]? = some nt)
-    (hu : nt.used = false) (hne : NoEntry topo q) :
-    getD (step cm dm topo dt damping s).dyn q = getD s.dyn q := by
-  apply untouched
-  intro k hk
-  obtain ⟨c', nt', hc', _, hn', hu', h⟩ := wset_subset cm topo k q hk
-  rcases h with h | h
-  · subst h
-    rw [hc] at hc'; cases hc'
-    rw [hn] at hn'; cases hn'
-    rw [hu] at hu'; cases hu'
-  · exact hne k c' nt' hc' hn' h
-
-/-- no coupling entry of the population names a slot of a static cell -/
-def NoStaticCoupling (topo : List (CellT R)) : Prop :=
-  ∀ (k : Slot) (c : CellT R) (nt : NodeT), topo[k.1]? = some c → c.nodes[k.2]? = some nt →
-    ∀ e ∈ nt.coup, ∀ c2 : CellT R, topo[e.1]? = some c2 → c2.isStatic = false
-
-/-- nodes of static (ECM / static) cells never move — nor does anything else of their dynamic state change —
-    provided no coupling names a slot of a static cell -/
-theorem static_fixed (cm : CM) (dm : DM) (topo : List (CellT R)) (dt damping : R) (s : State R)
-    (a b : Nat) (c : CellT R) (hc : topo[a]? = some c) (hs : c.isStatic = true) (hnsc : NoStaticCoupling topo) :
-    getD (step cm dm topo dt damping s).dyn (a, b) = getD s.dyn (a, b) := by
-  apply untouched
-  intro k hk
-  obtain ⟨c', nt', hc', hs', hn', _, h⟩ := wset_subset cm topo k (a, b) hk
-  rcases h with h | h
-  · subst h
-    simp only at hc'
-    rw [hc] at hc'; cases hc'
-    rw [hs] at hs'; cases hs'
-  · have := hnsc k c' nt' hc' hn' (a, b) h c hc
-    rw [hs] at this; cases this
-
-/-- … over any number of consecutive steps -/
-theorem static_fixed_n (cm : CM) (dm : DM) (topo : List (CellT R)) (dt damping : R)
-    (a b : Nat) (c : CellT R) (hc : topo[a]? = some c) (hs : c.isStatic = true) (hnsc : NoStaticCoupling topo) (n : Nat) :
-    ∀ s : State R, getD (stepN cm dm topo dt damping n s).dyn (a, b) = getD s.dyn (a, b) := by
-  induction n with
-  | zero => intro s; rfl
-  | succ n ih =>
-    intro s
-    simp only [stepN]
-    rw [ih, static_fixed cm dm topo dt damping s a b c hc hs hnsc]
-
-/-- why the contact phase cannot create a coupling with a static cell: in both coupling contact models every
-    `set_coupled_node_and_min_distance` call sits under the guard `c1 type == t1 && c2 type == t2` with
-    `(t1, t2) ∈ Gen.couplingGuards` (translated from the sources), and no such type id belongs to a class whose
-    constructor sets `is_static_` (`Gen.staticTypeIds`, translated from the class dispatch) -/
-theorem contact_creates_no_static_coupling (c1 c2 : CellT R) (h : (c1.kind, c2.kind) ∈ Gen.couplingGuards) :
-    c1.isStatic = false ∧ c2.isStatic = false := by
-  have key : ∀ g ∈ Gen.couplingGuards, Gen.staticTypeIds.contains g.1 = false ∧ Gen.staticTypeIds.contains g.2 = false := by
-    decide
-  exact key _ h
-
-/-! ## live, uncoupled nodes: the closed form of the documented law -/
-
-theorem single_semi (cm : CM) (dt damping m : R) (x : Dyn R) :
-    single cm .semiImplicit dt damping m x = lawSemi dt damping m x := by
-  cases cm <;>
-  · simp only [single, ofT, Gen.node00, Gen.single10, lawSemi, lit_zero]
-    apply dyn_ext <;> apply V3.ext' <;> (try v3simp) <;> (try ring)
-
-theorem single_over (cm : CM) (dt damping m : R) (x : Dyn R) :
-    single cm .overdamped dt damping m x = lawOver dt damping x := by
-  cases cm <;>
-  · simp only [single, ofT, Gen.node01, Gen.single11, lawOver, lit_zero]
-    apply dyn_ext <;> apply V3.ext' <;> (try v3simp) <;> (try ring)
-
-theorem own_semi (dt damping m : R) (x : Dyn R) :
-    ownF .semiImplicit dt damping 0 (initF .semiImplicit m x) x = lawSemi dt damping m x := by
-  simp only [ownF, initF, ofT, Gen.own20, Gen.init20, lawSemi, lit_zero, lit_one]
-  apply dyn_ext <;> apply V3.ext' <;> (try v3simp) <;> (try ring)
-
-theorem own_over (dt damping m : R) (x : Dyn R) :
-    ownF .overdamped dt damping 0 (initF .overdamped m x) x = lawOver dt damping x := by
-  simp only [ownF, initF, ofT, Gen.own21, Gen.init21, lawOver, lit_zero, lit_one]
-  apply dyn_ext <;> apply V3.ext' <;> (try v3simp) <;> (try ring)
-
-/-- the law applied by the model to a live uncoupled node -/
-def lawOf (dm : DM) (dt damping m : R) (x : Dyn R) : Dyn R :=
-  match dm with
-  | .semiImplicit => lawSemi dt damping m x
-  | .overdamped => lawOver dt damping x
-
-/-- the visit of a live, uncoupled node of a non-static cell applies the documented law to it -/
-theorem visit_uncoupled (cm : CM) (dm : DM) (topo : List (CellT R)) (dt damping : R) (d : DynS R)
-    (a b : Nat) (c : CellT R) (nt : NodeT) (x : Dyn R)
-    (hc : topo[a]? = some c) (hs : c.isStatic = false) (hn : c.nodes[b]? = some nt) (hu : nt.used = true)
-    (hcp : nt.coup = []) (hx : getD d (a, b) = some x) :
-    getD (nodeStep cm dm topo dt damping d (a, b)) (a, b) = some (lawOf dm dt damping c.mass x) := by
-  unfold nodeStep plan
-  simp only [hc, hs, hn, hu, hcp, Bool.false_eq_true, if_false, Bool.not_true]
-  cases cm with
-  | springs =>
-    simp only [exec, hx]
-    rw [getD_setD_self _ hx]
-    cases dm <;> simp [lawOf, single_semi, single_over]
-  | nodeNode =>
-    simp only [exec, hx]
-    rw [getD_setD_self _ hx]
-    cases dm <;> simp [lawOf, single_semi, single_over]
-  | faceFace =>
-    simp only [List.all_nil, if_true, List.mapM_nil, Option.pure_def, exec, hx, accAll, partnersAll, List.length_nil]
-    rw [getD_setD_self _ hx]
-    cases dm <;> simp [lawOf, own_semi, own_over]
-
-/-- no visit other than its own writes the slot `q` -/
-def OnlySelf (cm : CM) (topo : List (CellT R)) (q : Slot) : Prop :=
-  ∀ k', k' ≠ q → q ∉ (plan cm topo k').wset k'
-
-/-- sufficient: no coupling entry names the slot -/
-theorem onlySelf_of_noEntry (cm : CM) (topo : List (CellT R)) (q : Slot) (h : NoEntry topo q) : OnlySelf cm topo q := by
-  intro k' hne hk
-  obtain ⟨c', nt', hc', _, hn', _, h'⟩ := wset_subset cm topo k' q hk
-  rcases h' with h' | h'
-  · exact hne h'.symm
-  · exact h k' c' nt' hc' hn' h'
-
-/-- with the spring contact model nothing but the own visit ever writes a slot -/
-theorem onlySelf_springs (topo : List (CellT R)) (q : Slot) : OnlySelf .springs topo q := by
-  intro k' hne hk
-  unfold plan at hk
-  cases hc : topo[k'.1]? with
-  | none => simp [hc, Plan.wset] at hk
-  | some c =>
-    simp only [hc] at hk
-    split at hk
-    · simp [Plan.wset] at hk
-    · cases hn : c.nodes[k'.2]? with
-      | none => simp [hn, Plan.wset] at hk
-      | some nt =>
-        simp only [hn] at hk
-        split at hk
-        · simp [Plan.wset] at hk
-        · simp only [Plan.wset, List.mem_singleton] at hk; exact hne hk.symm
-
-theorem step_uncoupled (cm : CM) (dm : DM) (topo : List (CellT R)) (dt damping : R) (s : State R)
-    (a b : Nat) (c : CellT R) (nt : NodeT) (x : Dyn R)
-    (hc : topo[a]? = some c) (hs : c.isStatic = false) (hn : c.nodes[b]? = some nt) (hu : nt.used = true)
-    (hcp : nt.coup = []) (hx : getD s.dyn (a, b) = some x) (hos : OnlySelf cm topo (a, b)) :
-    getD (step cm dm topo dt damping s).dyn (a, b) = some (lawOf dm dt damping c.mass x) := by
-  obtain ⟨d1, hd1, hres⟩ := fold_localized cm dm topo dt damping [(a, b)] (a, b) (sched topo) s.dyn
-    (sched_nodup topo) (sched_mem topo a b c nt hc hn)
-    (fun k' _ hne q hq => by
-      simp only [List.mem_singleton] at hq; subst hq; exact hos k' hne)
-  have h1 := hd1 (a, b) (List.mem_singleton_self _)
-  show getD ((sched topo).foldl (nodeStep cm dm topo dt damping) s.dyn) (a, b) = _
-  rw [hres (a, b) (List.mem_singleton_self _)]
-  exact visit_uncoupled cm dm topo dt damping d1 a b c nt x hc hs hn hu hcp (h1.trans hx)
-
-/-- semi-implicit Euler, every contact model: a live uncoupled node of a non-static cell which no other node is
-    coupled to ends the step with `momentum' = momentum + (force − damping·momentum/mass)·dt`,
-    `position' = position + momentum'·dt/mass`, force zero — with the cell's per-node mass -/
-theorem uncoupled_semi_implicit (cm : CM) (topo : List (CellT R)) (dt damping : R) (s : State R)
-    (a b : Nat) (c : CellT R) (nt : NodeT) (x : Dyn R)
-    (hc : topo[a]? = some c) (hs : c.isStatic = false) (hn : c.nodes[b]? = some nt) (hu : nt.used = true)
-    (hcp : nt.coup = []) (hx : getD s.dyn (a, b) = some x) (hos : OnlySelf cm topo (a, b)) :
-    getD (step cm .semiImplicit topo dt damping s).dyn (a, b) = some (lawSemi dt damping c.mass x) :=
-  step_uncoupled cm .semiImplicit topo dt damping s a b c nt x hc hs hn hu hcp hx hos
-
-/-- overdamped forward Euler, every contact model: `position' = position + force·dt/damping`, force zero -/
-theorem uncoupled_overdamped (cm : CM) (topo : List (CellT R)) (dt damping : R) (s : State R)
-    (a b : Nat) (c : CellT R) (nt : NodeT) (x : Dyn R)
-    (hc : topo[a]? = some c) (hs : c.isStatic = false) (hn : c.nodes[b]? = some nt) (hu : nt.used = true)
-    (hcp : nt.coup = []) (hx : getD s.dyn (a, b) = some x) (hos : OnlySelf cm topo (a, b)) :
-    getD (step cm .overdamped topo dt damping s).dyn (a, b) = some (lawOver dt damping x) :=
-  step_uncoupled cm .overdamped topo dt damping s a b c nt x hc hs hn hu hcp hx hos
-
-theorem stepN_uncoupled (cm : CM) (dm : DM) (topo : List (CellT R)) (dt damping : R)
-    (a b : Nat) (c : CellT R) (nt : NodeT)
-    (hc : topo[a]? = some c) (hs : c.isStatic = false) (hn : c.nodes[b]? = some nt) (hu : nt.used = true)
-    (hcp : nt.coup = []) (hos : OnlySelf cm topo (a, b)) (n : Nat) :
-    ∀ (s : State R) (x : Dyn R), getD s.dyn (a, b) = some x →
-      getD (stepN cm dm topo dt damping n s).dyn (a, b) = some ((lawOf dm dt damping c.mass)^[n] x) := by
-  induction n with
-  | zero => intro s x hx; exact hx
-  | succ n ih =>
-    intro s x hx
-    simp only [stepN, Function.iterate_succ, Function.comp]
-    exact ih _ _ (step_uncoupled cm dm topo dt damping s a b c nt x hc hs hn hu hcp hx hos)
-
-/-- any number of consecutive steps: the node follows the iterated law -/
-theorem uncoupled_semi_implicit_n (cm : CM) (topo : List (CellT R)) (dt damping : R)
-    (a b : Nat) (c : CellT R) (nt : NodeT)
-    (hc : topo[a]? = some c) (hs : c.isStatic = false) (hn : c.nodes[b]? = some nt) (hu : nt.used = true)
-    (hcp : nt.coup = []) (hos : OnlySelf cm topo (a, b)) (n : Nat) (s : State R) (x : Dyn R)
-    (hx : getD s.dyn (a, b) = some x) :
-    getD (stepN cm .semiImplicit topo dt damping n s).dyn (a, b) = some ((lawSemi dt damping c.mass)^[n] x) :=
-  stepN_uncoupled cm .semiImplicit topo dt damping a b c nt hc hs hn hu hcp hos n s x hx
-
-theorem uncoupled_overdamped_n (cm : CM) (topo : List (CellT R)) (dt damping : R)
-    (a b : Nat) (c : CellT R) (nt : NodeT)
-    (hc : topo[a]? = some c) (hs : c.isStatic = false) (hn : c.nodes[b]? = some nt) (hu : nt.used = true)
-    (hcp : nt.coup = []) (hos : OnlySelf cm topo (a, b)) (n : Nat) (s : State R) (x : Dyn R)
-    (hx : getD s.dyn (a, b) = some x) :
-    getD (stepN cm .overdamped topo dt damping n s).dyn (a, b) = some ((lawOver dt damping)^[n] x) :=
-  stepN_uncoupled cm .overdamped topo dt damping a b c nt hc hs hn hu hcp hos n s x hx
-
-/-! ## force accumulators -/
-
-/-- every slot that some visit writes ("every integrated node": the visited live nodes of non-static cells and
-    the partners they update in place) ends the step with a zero force accumulator — in every configuration,
-    whatever the couplings.  `hwf`: the slots the plans name exist. -/
-theorem force_reset (cm : CM) (dm : DM) (topo : List (CellT R)) (dt damping : R) (s : State R)
-    (hwf : ∀ k, ∀ q ∈ (plan cm topo k).wset k, Ex s.dyn q)
-    (q : Slot) (hq : ∃ k, q ∈ (plan cm topo k).wset k) (y : Dyn R)
-    (hy : getD (step cm dm topo dt damping s).dyn q = some y) : y.force = ⟨0, 0, 0⟩ := by
-  obtain ⟨k, hk⟩ := hq
-  obtain ⟨c, nt, hc, _, hn, _, _⟩ := wset_subset cm topo k q hk
-  have hmem : k ∈ sched topo := sched_mem topo k.1 k.2 c nt hc hn
-  exact fold_z cm dm topo dt damping q (sched topo) s.dyn (fun k' _ => hwf k') (Or.inr ⟨k, hmem, hk⟩) y hy
-
-/-! ## mutually coupled pairs, node–node coupling (CONTACT_MODEL_INDEX 1, the shipped configuration) -/
-
-/-- what the pair theorems assume about the population: `k = (a,b)` is a live node of a non-static cell, coupled
-    to `p`, in the cell that owns the pair; no other visit writes `k` or `p` (see `others_of_mutual`) -/
-structure PairTopo (cm : CM) (topo : List (CellT R)) (k p : Slot) (ca cc : CellT R) : Prop where
-  hca : topo[k.1]? = some ca
-  hcc : topo[p.1]? = some cc
-  hns : ca.isStatic = false
-  hnt : ∃ nt, ca.nodes[k.2]? = some nt ∧ nt.used = true ∧ nt.coup = [p]
-  hne : k ≠ p
-  hothers : ∀ k', k' ≠ k → k ∉ (plan cm topo k').wset k' ∧ p ∉ (plan cm topo k').wset k'
-
-theorem visit_pair (dm : DM) (topo : List (CellT R)) (dt damping : R) (d : DynS R) (k p : Slot) (ca cc : CellT R)
-    (x1 x2 : Dyn R) (h : PairTopo .nodeNode topo k p ca cc) (howns : Gen.owns1 ca.localId p.1 = true)
-    (hx1 : getD d k = some x1) (hx2 : getD d p = some x2) :
-    getD (nodeStep .nodeNode dm topo dt damping d k) k = some (pairF dm dt damping ca.mass cc.mass x1 x2).1 ∧
-    getD (nodeStep .nodeNode dm topo dt damping d k) p = some (pairF dm dt damping ca.mass cc.mass x1 x2).2 := by
-  obtain ⟨nt, hn, hu, hcp⟩ := h.hnt
-  unfold nodeStep plan
-  simp only [h.hca, h.hns, hn, hu, hcp, howns, h.hcc, Bool.false_eq_true, if_false, Bool.not_true, if_true, exec, hx1, hx2]
-  have hpk : p ≠ k := fun e => h.hne e.symm
-  have h2 : getD (setD d k (pairF dm dt damping ca.mass cc.mass x1 x2).1) p = some x2 := by
-    rw [getD_setD_ne _ hpk]; exact hx2
-  constructor
-  · rw [getD_setD_ne _ h.hne]; exact getD_setD_self _ hx1
-  · exact getD_setD_self _ h2
-
-/-- the step gives a mutual pair exactly what the pair block of the code computes from the pair's initial state -/
-theorem pair_step (dm : DM) (topo : List (CellT R)) (dt damping : R) (s : State R) (k p : Slot) (ca cc : CellT R)
-    (x1 x2 : Dyn R) (h : PairTopo .nodeNode topo k p ca cc) (howns : Gen.owns1 ca.localId p.1 = true)
-    (hx1 : getD s.dyn k = some x1) (hx2 : getD s.dyn p = some x2) :
-    getD (step .nodeNode dm topo dt damping s).dyn k = some (pairF dm dt damping ca.mass cc.mass x1 x2).1 ∧
-    getD (step .nodeNode dm topo dt damping s).dyn p = some (pairF dm dt damping ca.mass cc.mass x1 x2).2 := by
-  obtain ⟨nt, hn, _, _⟩ := h.hnt
-  obtain ⟨d1, hd1, hres⟩ := fold_localized .nodeNode dm topo dt damping [k, p] k (sched topo) s.dyn
-    (sched_nodup topo) (sched_mem topo k.1 k.2 ca nt h.hca hn)
-    (fun k' _ hne q hq => by
-      simp only [List.mem_cons, List.not_mem_nil, or_false] at hq
-      rcases hq with hq | hq
-      · subst hq; exact (h.hothers k' hne).1
-      · subst hq; exact (h.hothers k' hne).2)
-  have e1 := (hd1 k (by simp)).trans hx1
-  have e2 := (hd1 p (by simp)).trans hx2
-  have hv := visit_pair dm topo dt damping d1 k p ca cc x1 x2 h howns e1 e2
-  constructor
-  · show getD ((sched topo).foldl (nodeStep .nodeNode dm topo dt damping) s.dyn) k = _
-    rw [hres k (by simp)]; exact hv.1
-  · show getD ((sched topo).foldl (nodeStep .nodeNode dm topo dt damping) s.dyn) p = _
-    rw [hres p (by simp)]; exact hv.2
-
-/-- the two nodes of a pair receive the same displacement (both dynamic models) -/
-theorem pairF_same_displacement (dm : DM) (dt damping m1 m2 : R) (x1 x2 : Dyn R) :
-    (pairF dm dt damping m1 m2 x1 x2).1.pos - x1.pos = (pairF dm dt damping m1 m2 x1 x2).2.pos - x2.pos := by
-  cases dm <;>
-  · simp only [pairF, ofT, Gen.pair10, Gen.pair11, lit_zero, lit_one, lit_two]
-    apply V3.ext' <;> (try v3simp) <;> (try ring)
-
-/-- semi-implicit: both nodes leave with the same momentum, and the pair's total momentum is the total it had,
-    advanced by the pair's TOTAL force and the damping of the total at the mean node mass: nothing is created or
-    lost by the coupling -/
-theorem pairF_momentum (dt damping m1 m2 : R) (x1 x2 : Dyn R) :
-    (pairF .semiImplicit dt damping m1 m2 x1 x2).1.mom = (pairF .semiImplicit dt damping m1 m2 x1 x2).2.mom ∧
-    (pairF .semiImplicit dt damping m1 m2 x1 x2).1.mom + (pairF .semiImplicit dt damping m1 m2 x1 x2).2.mom
-      = (x1.mom + x2.mom) + ((x1.force + x2.force) - ((x1.mom + x2.mom) * damping) / ((m1 + m2) / 2)) * dt := by
-  constructor
-  · simp only [pairF, ofT, Gen.pair10]
-  simp only [pairF, ofT, Gen.pair10, lit_zero, lit_one, lit_two]
-  apply V3.ext' <;> (try v3simp) <;> (try ring)
-
-/-- semi-implicit: the common displacement is the documented one for a body carrying the mean momentum -/
-theorem pairF_displacement_semi (dt damping m1 m2 : R) (x1 x2 : Dyn R) :
-    (pairF .semiImplicit dt damping m1 m2 x1 x2).1.pos - x1.pos
-      = ((pairF .semiImplicit dt damping m1 m2 x1 x2).1.mom * dt) / ((m1 + m2) / 2) := by
-  simp only [pairF, ofT, Gen.pair10, lit_zero, lit_one, lit_two]
-  apply V3.ext' <;> (try v3simp) <;> (try ring)
-
-/-- overdamped: each node is moved by the mean force, so the two displacements add up to what the pair's TOTAL
-    force produces -/
-theorem pairF_force (dt damping m1 m2 : R) (x1 x2 : Dyn R) :
-    ((pairF .overdamped dt damping m1 m2 x1 x2).1.pos - x1.pos) + ((pairF .overdamped dt damping m1 m2 x1 x2).2.pos - x2.pos)
-      = ((x1.force + x2.force) * dt) / damping := by
-  simp only [pairF, ofT, Gen.pair11, lit_zero, lit_one, lit_two]
-  apply V3.ext' <;> (try v3simp) <;> (try ring)
-
-theorem pair_same_displacement (dm : DM) (topo : List (CellT R)) (dt damping : R) (s : State R) (k p : Slot)
-    (ca cc : CellT R) (x1 x2 : Dyn R) (h : PairTopo .nodeNode topo k p ca cc) (howns : Gen.owns1 ca.localId p.1 = true)
-    (hx1 : getD s.dyn k = some x1) (hx2 : getD s.dyn p = some x2) :
-    ∃ y1 y2, getD (step .nodeNode dm topo dt damping s).dyn k = some y1 ∧
-      getD (step .nodeNode dm topo dt damping s).dyn p = some y2 ∧ y1.pos - x1.pos = y2.pos - x2.pos := by
-  obtain ⟨h1, h2⟩ := pair_step dm topo dt damping s k p ca cc x1 x2 h howns hx1 hx2
-  exact ⟨_, _, h1, h2, pairF_same_displacement ..⟩
-
-theorem pair_momentum (topo : List (CellT R)) (dt damping : R) (s : State R) (k p : Slot)
-    (ca cc : CellT R) (x1 x2 : Dyn R) (h : PairTopo .nodeNode topo k p ca cc) (howns : Gen.owns1 ca.localId p.1 = true)
-    (hx1 : getD s.dyn k = some x1) (hx2 : getD s.dyn p = some x2) :
-    ∃ y1 y2, getD (step .nodeNode .semiImplicit topo dt damping s).dyn k = some y1 ∧
-      getD (step .nodeNode .semiImplicit topo dt damping s).dyn p = some y2 ∧ y1.mom = y2.mom ∧
-      y1.mom + y2.mom = (x1.mom + x2.mom)
-        + ((x1.force + x2.force) - ((x1.mom + x2.mom) * damping) / ((ca.mass + cc.mass) / 2)) * dt ∧
-      y1.pos - x1.pos = (y1.mom * dt) / ((ca.mass + cc.mass) / 2) := by
-  obtain ⟨h1, h2⟩ := pair_step .semiImplicit topo dt damping s k p ca cc x1 x2 h howns hx1 hx2
-  exact ⟨_, _, h1, h2, (pairF_momentum ..).1, (pairF_momentum ..).2, pairF_displacement_semi ..⟩
-
-theorem pair_force (topo : List (CellT R)) (dt damping : R) (s : State R) (k p : Slot)
-    (ca cc : CellT R) (x1 x2 : Dyn R) (h : PairTopo .nodeNode topo k p ca cc) (howns : Gen.owns1 ca.localId p.1 = true)
-    (hx1 : getD s.dyn k = some x1) (hx2 : getD s.dyn p = some x2) :
-    ∃ y1 y2, getD (step .nodeNode .overdamped topo dt damping s).dyn k = some y1 ∧
-      getD (step .nodeNode .overdamped topo dt damping s).dyn p = some y2 ∧
-      (y1.pos - x1.pos) + (y2.pos - x2.pos) = ((x1.force + x2.force) * dt) / damping ∧
-      y1.force = ⟨0, 0, 0⟩ ∧ y2.force = ⟨0, 0, 0⟩ := by
-  obtain ⟨h1, h2⟩ := pair_step .overdamped topo dt damping s k p ca cc x1 x2 h howns hx1 hx2
-  exact ⟨_, _, h1, h2, pairF_force .., (Integ.pairF_force ..).1, (Integ.pairF_force ..).2⟩
-
-theorem v3_sub_trans {a b c a' b' c' : V3 R} (h1 : b - a = b' - a') (h2 : c - b = c' - b') : c - a = c' - a' := by
-  have hx := congrArg V3.x h1; have hy := congrArg V3.y h1; have hz := congrArg V3.z h1
-  have gx := congrArg V3.x h2; have gy := congrArg V3.y h2; have gz := congrArg V3.z h2
-  simp only [V3.sub_x, V3.sub_y, V3.sub_z] at hx hy hz gx gy gz
-  apply V3.ext' <;> simp <;> linarith
-
-/-- any number of consecutive steps: the two nodes of a mutual pair have received the same total displacement -/
-theorem pair_same_displacement_n (dm : DM) (topo : List (CellT R)) (dt damping : R) (k p : Slot)
-    (ca cc : CellT R) (h : PairTopo .nodeNode topo k p ca cc) (howns : Gen.owns1 ca.localId p.1 = true) (n : Nat) :
-    ∀ (s : State R) (x1 x2 : Dyn R), getD s.dyn k = some x1 → getD s.dyn p = some x2 →
-    ∃ y1 y2, getD (stepN .nodeNode dm topo dt damping n s).dyn k = some y1 ∧
-      getD (stepN .nodeNode dm topo dt damping n s).dyn p = some y2 ∧ y1.pos - x1.pos = y2.pos - x2.pos := by
-  induction n with
-  | zero =>
-    intro s x1 x2 hx1 hx2
-    refine ⟨x1, x2, hx1, hx2, ?_⟩
-    apply V3.ext' <;> (try v3simp) <;> (try ring)
-  | succ n ih =>
-    intro s x1 x2 hx1 hx2
-    obtain ⟨z1, z2, hz1, hz2, hz⟩ := pair_same_displacement dm topo dt damping s k p ca cc x1 x2 h howns hx1 hx2
-    obtain ⟨y1, y2, hy1, hy2, hy⟩ := ih _ z1 z2 hz1 hz2
-    exact ⟨y1, y2, hy1, hy2, v3_sub_trans hz hy⟩
-
-/-! ## mutually coupled pairs, face–face coupling (CONTACT_MODEL_INDEX 2), each node coupled to the other only -/
-
-/-- what the code computes for a pair in contact model 2 -/
-def pairFF (dm : DM) (dt damping m1 m2 : R) (x1 x2 : Dyn R) : Dyn R × Dyn R :=
-  let a := accF dm (initF dm m1 x1) x2 m2
-  (ownF dm dt damping 1 a x1, partnerF dm dt damping 1 a x1 x2)
-
-theorem visit_pair_ff (dm : DM) (topo : List (CellT R)) (dt damping : R) (d : DynS R) (k p : Slot) (ca cc : CellT R)
-    (x1 x2 : Dyn R) (h : PairTopo .faceFace topo k p ca cc) (howns : Gen.owns2 ca.localId p.1 = true)
-    (hx1 : getD d k = some x1) (hx2 : getD d p = some x2) :
-    getD (nodeStep .faceFace dm topo dt damping d k) k = some (pairFF dm dt damping ca.mass cc.mass x1 x2).1 ∧
-    getD (nodeStep .faceFace dm topo dt damping d k) p = some (pairFF dm dt damping ca.mass cc.mass x1 x2).2 := by
-  obtain ⟨nt, hn, hu, hcp⟩ := h.hnt
-  have hpk : p ≠ k := fun e => h.hne e.symm
-  unfold nodeStep plan
-  simp only [h.hca, h.hns, hn, hu, hcp, Bool.false_eq_true, if_false, Bool.not_true, List.all_cons, List.all_nil,
-    howns, Bool.and_true, if_true, List.mapM_cons, List.mapM_nil, h.hcc, Option.map_some, Option.pure_def,
-    Option.bind_eq_bind, Option.bind_some, exec, hx1, accAll, hx2, List.length_cons, List.length_nil, Nat.zero_add,
-    partnersAll]
-  have h2 : getD (setD d k (ownF dm dt damping 1 (accF dm (initF dm ca.mass x1) x2 cc.mass) x1)) p = some x2 := by
-    rw [getD_setD_ne _ hpk]; exact hx2
-  simp only [h2]
-  constructor
-  · rw [getD_setD_ne _ h.hne]; exact getD_setD_self _ hx1
-  · exact getD_setD_self _ h2
-
-theorem pair_step_ff (dm : DM) (topo : List (CellT R)) (dt damping : R) (s : State R) (k p : Slot) (ca cc : CellT R)
-    (x1 x2 : Dyn R) (h : PairTopo .faceFace topo k p ca cc) (howns : Gen.owns2 ca.localId p.1 = true)
-    (hx1 : getD s.dyn k = some x1) (hx2 : getD s.dyn p = some x2) :
-    getD (step .faceFace dm topo dt damping s).dyn k = some (pairFF dm dt damping ca.mass cc.mass x1 x2).1 ∧
-    getD (step .faceFace dm topo dt damping s).dyn p = some (pairFF dm dt damping ca.mass cc.mass x1 x2).2 := by
-  obtain ⟨nt, hn, _, _⟩ := h.hnt
-  obtain ⟨d1, hd1, hres⟩ := fold_localized .faceFace dm topo dt damping [k, p] k (sched topo) s.dyn
-    (sched_nodup topo) (sched_mem topo k.1 k.2 ca nt h.hca hn)
-    (fun k' _ hne q hq => by
-      simp only [List.mem_cons, List.not_mem_nil, or_false] at hq
-      rcases hq with hq | hq
-      · subst hq; exact (h.hothers k' hne).1
-      · subst hq; exact (h.hothers k' hne).2)
-  have e1 := (hd1 k (by simp)).trans hx1
-  have e2 := (hd1 p (by simp)).trans hx2
-  have hv := visit_pair_ff dm topo dt damping d1 k p ca cc x1 x2 h howns e1 e2
-  constructor
-  · show getD ((sched topo).foldl (nodeStep .faceFace dm topo dt damping) s.dyn) k = _
-    rw [hres k (by simp)]; exact hv.1
-  · show getD ((sched topo).foldl (nodeStep .faceFace dm topo dt damping) s.dyn) p = _
-    rw [hres p (by simp)]; exact hv.2
-
-theorem pairFF_same_displacement (dm : DM) (dt damping m1 m2 : R) (x1 x2 : Dyn R) :
-    (pairFF dm dt damping m1 m2 x1 x2).1.pos - x1.pos = (pairFF dm dt damping m1 m2 x1 x2).2.pos - x2.pos := by
-  cases dm <;>
-  · simp only [pairFF, ownF, partnerF, accF, initF, ofT, Gen.own20, Gen.own21, Gen.partner20, Gen.partner21,
-      Gen.acc20, Gen.acc21, Gen.init20, Gen.init21, lit_zero, lit_one]
-    apply V3.ext' <;> (try v3simp) <;> (try ring)
-
-/-- semi-implicit, contact model 2: total momentum of the pair advanced by the total force (nothing created or lost),
-    and the common displacement is the documented one for a body carrying the UPDATED mean momentum -/
-theorem pairFF_momentum (dt damping m1 m2 : R) (x1 x2 : Dyn R) :
-    (pairFF .semiImplicit dt damping m1 m2 x1 x2).1.mom + (pairFF .semiImplicit dt damping m1 m2 x1 x2).2.mom
-      = (x1.mom + x2.mom) + ((x1.force + x2.force) - ((x1.mom + x2.mom) * damping) / ((m1 + m2) / 2)) * dt ∧
-    (pairFF .semiImplicit dt damping m1 m2 x1 x2).1.pos - x1.pos
-      = ((((pairFF .semiImplicit dt damping m1 m2 x1 x2).1.mom + (pairFF .semiImplicit dt damping m1 m2 x1 x2).2.mom) / (2 : R)) * dt)
-          / ((m1 + m2) / 2) := by
-  simp only [pairFF, ownF, partnerF, accF, initF, ofT, Gen.own20, Gen.partner20, Gen.acc20, Gen.init20, lit_zero, lit_one]
-  constructor <;> apply V3.ext' <;> (try v3simp) <;> (try ring)
-
-theorem pairFF_force (dt damping m1 m2 : R) (x1 x2 : Dyn R) :
-    ((pairFF .overdamped dt damping m1 m2 x1 x2).1.pos - x1.pos) + ((pairFF .overdamped dt damping m1 m2 x1 x2).2.pos - x2.pos)
-      = ((x1.force + x2.force) * dt) / damping := by
-  simp only [pairFF, ownF, partnerF, accF, initF, ofT, Gen.own21, Gen.partner21, Gen.acc21, Gen.init21, lit_zero, lit_one]
-  apply V3.ext' <;> (try v3simp) <;> (try ring)
-
-theorem pair_same_displacement_ff (dm : DM) (topo : List (CellT R)) (dt damping : R) (s : State R) (k p : Slot)
-    (ca cc : CellT R) (x1 x2 : Dyn R) (h : PairTopo .faceFace topo k p ca cc) (howns : Gen.owns2 ca.localId p.1 = true)
-    (hx1 : getD s.dyn k = some x1) (hx2 : getD s.dyn p = some x2) :
-    ∃ y1 y2, getD (step .faceFace dm topo dt damping s).dyn k = some y1 ∧
-      getD (step .faceFace dm topo dt damping s).dyn p = some y2 ∧ y1.pos - x1.pos = y2.pos - x2.pos := by
-  obtain ⟨h1, h2⟩ := pair_step_ff dm topo dt damping s k p ca cc x1 x2 h howns hx1 hx2
-  exact ⟨_, _, h1, h2, pairFF_same_displacement ..⟩
-
-theorem pair_momentum_ff (topo : List (CellT R)) (dt damping : R) (s : State R) (k p : Slot)
-    (ca cc : CellT R) (x1 x2 : Dyn R) (h : PairTopo .faceFace topo k p ca cc) (howns : Gen.owns2 ca.localId p.1 = true)
-    (hx1 : getD s.dyn k = some x1) (hx2 : getD s.dyn p = some x2) :
-    ∃ y1 y2, getD (step .faceFace .semiImplicit topo dt damping s).dyn k = some y1 ∧
-      getD (step .faceFace .semiImplicit topo dt damping s).dyn p = some y2 ∧
-      y1.mom + y2.mom = (x1.mom + x2.mom)
-        + ((x1.force + x2.force) - ((x1.mom + x2.mom) * damping) / ((ca.mass + cc.mass) / 2)) * dt ∧
-      y1.pos - x1.pos = (((y1.mom + y2.mom) / (2 : R)) * dt) / ((ca.mass + cc.mass) / 2) := by
-  obtain ⟨h1, h2⟩ := pair_step_ff .semiImplicit topo dt damping s k p ca cc x1 x2 h howns hx1 hx2
-  exact ⟨_, _, h1, h2, (pairFF_momentum ..).1, (pairFF_momentum ..).2⟩
-
-theorem pair_force_ff (topo : List (CellT R)) (dt damping : R) (s : State R) (k p : Slot)
-    (ca cc : CellT R) (x1 x2 : Dyn R) (h : PairTopo .faceFace topo k p ca cc) (howns : Gen.owns2 ca.localId p.1 = true)
-    (hx1 : getD s.dyn k = some x1) (hx2 : getD s.dyn p = some x2) :
-    ∃ y1 y2, getD (step .faceFace .overdamped topo dt damping s).dyn k = some y1 ∧
-      getD (step .faceFace .overdamped topo dt damping s).dyn p = some y2 ∧
-      (y1.pos - x1.pos) + (y2.pos - x2.pos) = ((x1.force + x2.force) * dt) / damping ∧
-      y1.force = ⟨0, 0, 0⟩ ∧ y2.force = ⟨0, 0, 0⟩ := by
-  obtain ⟨h1, h2⟩ := pair_step_ff .overdamped topo dt damping s k p ca cc x1 x2 h howns hx1 hx2
-  exact ⟨_, _, h1, h2, pairFF_force .., ownF_force .., partnerF_force ..⟩
-
-/-! ## where the pair hypotheses come from: symmetric matchings with local ids = list positions -/
-
-/-- the coupling relation is a symmetric partial matching: whenever a slot `k` names `e`, the slot `e` exists and
-    names exactly `k` (this is what `set_coupled_node_and_min_distance` on both nodes establishes) -/
-def Mutual (topo : List (CellT R)) : Prop :=
-  ∀ (k : Slot) (c : CellT R) (nt : NodeT), topo[k.1]? = some c → c.nodes[k.2]? = some nt →
-    ∀ e ∈ nt.coup, ∃ (c2 : CellT R) (nt2 : NodeT), topo[e.1]? = some c2 ∧ c2.nodes[e.2]? = some nt2 ∧ nt2.coup = [k]
-
-/-- `local_id_` is the position in `cell_lst` (what the solver maintains) -/
-def IdsAreIndices (topo : List (CellT R)) : Prop := ∀ (i : Nat) (c : CellT R), topo[i]? = some c → c.localId = i
-
-theorem plan_nonowner (cm : CM) (topo : List (CellT R)) (p k : Slot) (cc : CellT R) (nt2 : NodeT)
-    (hcc : topo[p.1]? = some cc) (hn2 : cc.nodes[p.2]? = some nt2) (hcp : nt2.coup = [k])
-    (ho1 : Gen.owns1 cc.localId k.1 = false) (ho2 : Gen.owns2 cc.localId k.1 = false) (hcm : cm ≠ .springs) :
-    (plan cm topo p).wset p = [] := by
-  unfold plan
-  simp only [hcc, hn2]
-  split
-  · rfl
-  · split
-    · rfl
-    · cases cm with
-      | springs => exact absurd rfl hcm
-      | nodeNode => simp [hcp, ho1, Plan.wset]
-      | faceFace => simp [hcp, ho2, Plan.wset]
-
-/-- in a symmetric matching whose local ids are the list positions, the member of a pair that lives in the cell
-    with the greater index owns the pair, and nothing else writes the two slots -/
-theorem pairTopo_of_mutual (cm : CM) (topo : List (CellT R)) (k p : Slot) (ca cc : CellT R) (nt : NodeT)
-    (hm : Mutual topo) (hid : IdsAreIndices topo) (hcm : cm ≠ .springs)
-    (hca : topo[k.1]? = some ca) (hcc : topo[p.1]? = some cc) (hns : ca.isStatic = false)
-    (hn : ca.nodes[k.2]? = some nt) (hu : nt.used = true) (hcp : nt.coup = [p]) (hlt : p.1 < k.1) :
-    PairTopo cm topo k p ca cc ∧ Gen.owns1 ca.localId p.1 = true ∧ Gen.owns2 ca.localId p.1 = true := by
-  have hne : k ≠ p := by
-    intro e; rw [e] at hlt; exact Nat.lt_irrefl _ hlt
-  obtain ⟨c2, nt2, hc2, hn2, hcp2⟩ := hm k ca nt hca hn p (by rw [hcp]; exact List.mem_singleton_self _)
-  rw [hcc] at hc2; cases hc2
-  have hida : ca.localId = k.1 := hid _ _ hca
-  have hidc : cc.localId = p.1 := hid _ _ hcc
-  have ho1 : Gen.owns1 cc.localId k.1 = false := by
-    simp only [Gen.owns1, hidc, decide_eq_false_iff_not]; omega
-  have ho2 : Gen.owns2 cc.localId k.1 = false := by
-    simp only [Gen.owns2, hidc, decide_eq_false_iff_not]; omega
-  have hpempty := plan_nonowner cm topo p k cc nt2 hcc hn2 hcp2 ho1 ho2 hcm
-  refine ⟨⟨hca, hcc, hns, ⟨nt, hn, hu, hcp⟩, hne, ?_⟩, ?_, ?_⟩
-  · intro k' hne'
-    constructor
-    · intro hk
-      obtain ⟨c', nt', hc', _, hn', _, h'⟩ := wset_subset cm topo k' k hk
-      rcases h' with h' | h'
-      · exact hne' h'.symm
-      · obtain ⟨c3, nt3, hc3, hn3, hcp3⟩ := hm k' c' nt' hc' hn' k h'
-        rw [hca] at hc3; cases hc3
-        rw [hn] at hn3; cases hn3
-        rw [hcp] at hcp3
-        have : k' = p := by injection hcp3 with h1 _; exact h1.symm
-        subst this
-        rw [hpempty] at hk; cases hk
-    · intro hk
-      obtain ⟨c', nt', hc', _, hn', _, h'⟩ := wset_subset cm topo k' p hk
-      rcases h' with h' | h'
-      · subst h'; rw [hpempty] at hk; cases hk
-      · obtain ⟨c3, nt3, hc3, hn3, hcp3⟩ := hm k' c' nt' hc' hn' p h'
-        rw [hcc] at hc3; cases hc3
-        rw [hn2] at hn3; cases hn3
-        rw [hcp2] at hcp3
-        have : k' = k := by injection hcp3 with h1 _; exact h1.symm
-        exact hne' this
-  · simp only [Gen.owns1, hida, decide_eq_true_eq]; exact hlt
-  · simp only [Gen.owns2, hida, decide_eq_true_eq]; exact hlt
-
-/-! ## non-vacuity: a population over ℚ with one mutual pair, an unused slot and a static cell -/
-section nonvacuous
-
-def exTopo : List (CellT ℚ) := [
-  { localId := 0, kind := 0, density := 2, volume := 3, nodes := [⟨true, [(1, 0)]⟩, ⟨true, []⟩, ⟨false, []⟩] },
-  { localId := 1, kind := 0, density := 1, volume := 4, nodes := [⟨true, [(0, 0)]⟩, ⟨true, []⟩] },
-  { localId := 2, kind := 1, density := 1, volume := 1, nodes := [⟨true, []⟩] } ]
-
-def exDyn : DynS ℚ := [
-  [⟨⟨0, 0, 0⟩, ⟨1, 2, 3⟩, ⟨1, 0, -1⟩⟩, ⟨⟨1, 0, 0⟩, ⟨0, 1, 0⟩, ⟨0, 2, 0⟩⟩, ⟨⟨9, 9, 9⟩, ⟨5, 5, 5⟩, ⟨7, 7, 7⟩⟩],
-  [⟨⟨0, 0, 1/2⟩, ⟨-1, 0, 2⟩, ⟨3, 1, 1⟩⟩, ⟨⟨2, 0, 0⟩, ⟨0, 0, 1⟩, ⟨1, 1, 1⟩⟩],
-  [⟨⟨5, 5, 5⟩, ⟨1, 1, 1⟩, ⟨2, 2, 2⟩⟩] ]
-
-example : IdsAreIndices exTopo := by
-  intro i c h
-  rcases i with _ | _ | _ | i <;> simp [exTopo] at h <;> subst h <;> rfl
-
-theorem exMutual : Mutual exTopo := by
-  intro k c nt hc hn e he
-  obtain ⟨a, b⟩ := k
-  rcases a with _ | _ | _ | a <;> simp [exTopo] at hc <;> subst hc
-  · rcases b with _ | _ | _ | b <;> simp at hn <;> subst hn <;> simp at he
-    subst he; exact ⟨_, _, rfl, rfl, rfl⟩
-  · rcases b with _ | _ | b <;> simp at hn <;> subst hn <;> simp at he
-    subst he; exact ⟨_, _, rfl, rfl, rfl⟩
-  · rcases b with _ | b <;> simp at hn <;> subst hn <;> simp at he
-
-theorem exIds : IdsAreIndices exTopo := by
-  intro i c h
-  rcases i with _ | _ | _ | i <;> simp [exTopo] at h <;> subst h <;> rfl
-
-theorem exNoStatic : NoStaticCoupling exTopo := by
-  intro k c nt hc hn e he c2 hc2
-  obtain ⟨a, b⟩ := k
-  rcases a with _ | _ | _ | a <;> simp [exTopo] at hc <;> subst hc
-  · rcases b with _ | _ | _ | b <;> simp at hn <;> subst hn <;> simp at he
-    subst he; simp [exTopo] at hc2; subst hc2; rfl
-  · rcases b with _ | _ | b <;> simp at hn <;> subst hn <;> simp at he
-    subst he; simp [exTopo] at hc2; subst hc2; rfl
-  · rcases b with _ | b <;> simp at hn <;> subst hn <;> simp at he
-
-/-- the hypotheses of the pair theorems hold for the pair (1,0) / (0,0) of the example (owner: cell 1) -/
-example : ∃ y1 y2, getD (step .nodeNode .semiImplicit exTopo (1/4) (1/2) ⟨0, exDyn⟩).dyn (1, 0) = some y1 ∧
-    getD (step .nodeNode .semiImplicit exTopo (1/4) (1/2) ⟨0, exDyn⟩).dyn (0, 0) = some y2 ∧
-    y1.pos - (⟨0, 0, 1/2⟩ : V3 ℚ) = y2.pos - ⟨0, 0, 0⟩ := by
-  obtain ⟨hp, ho, _⟩ := pairTopo_of_mutual .nodeNode exTopo (1, 0) (0, 0) _ _ ⟨true, [(0, 0)]⟩ exMutual exIds (by decide)
-    (rfl : exTopo[1]? = some _) (rfl : exTopo[0]? = some _) rfl rfl rfl rfl (by decide)
-  exact pair_same_displacement .semiImplicit exTopo (1/4) (1/2) ⟨0, exDyn⟩ (1, 0) (0, 0) _ _ _ _ hp ho rfl rfl
-
-/-- the cell of the live uncoupled node (0,1) has 2 live slots out of 3, so the node mass is 2·3/2 = 3 -/
-example : (exTopo[0]'(by decide)).mass = 3 := by
-  rw [node_mass_law]; norm_num [exTopo]
-
-example : getD (step .nodeNode .semiImplicit exTopo (1/4) (1/2) ⟨0, exDyn⟩).dyn (0, 1)
-    = some (lawSemi (1/4 : ℚ) (1/2) (exTopo[0]'(by decide)).mass ⟨⟨1, 0, 0⟩, ⟨0, 1, 0⟩, ⟨0, 2, 0⟩⟩) := by
-  have hos : OnlySelf .nodeNode exTopo (0, 1) := by
-    apply onlySelf_of_noEntry
-    intro k c nt hc hn
-    obtain ⟨a, b⟩ := k
-    rcases a with _ | _ | _ | a <;> simp [exTopo] at hc <;> subst hc
-    · rcases b with _ | _ | _ | b <;> simp at hn <;> subst hn <;> simp
-    · rcases b with _ | _ | b <;> simp at hn <;> subst hn <;> simp
-    · rcases b with _ | b <;> simp at hn <;> subst hn <;> simp
-  exact uncoupled_semi_implicit .nodeNode exTopo (1/4) (1/2) ⟨0, exDyn⟩ 0 1 _ ⟨true, []⟩ _ rfl rfl rfl rfl rfl rfl hos
-
-/-- the static cell 2 keeps its state, the documented law gives concrete numbers -/
-example : getD (step .nodeNode .semiImplicit exTopo (1/4) (1/2) ⟨0, exDyn⟩).dyn (2, 0) = some ⟨⟨5, 5, 5⟩, ⟨1, 1, 1⟩, ⟨2, 2, 2⟩⟩ :=
-  static_fixed .nodeNode .semiImplicit exTopo (1/4) (1/2) ⟨0, exDyn⟩ 2 0 _ rfl rfl exNoStatic
-
-example : lawSemi (1/2 : ℚ) 1 1 ⟨⟨0, 0, 0⟩, ⟨1, 0, 0⟩, ⟨2, 0, 0⟩⟩ = ⟨⟨3/4, 0, 0⟩, ⟨3/2, 0, 0⟩, ⟨0, 0, 0⟩⟩ := by
-  simp only [lawSemi]
-  apply dyn_ext <;> apply V3.ext' <;> norm_num
-
-end nonvacuous
-
-end Simu.C03
